@@ -709,6 +709,9 @@ fn configure_build(
                 .flat_map(|x| x.iter())
                 .flatten()
                 .map(|x| Cow::from(x.as_ref()))
+                // sorted (as the build statements list them), so that the hash below does not
+                // depend on the order in which the dependencies were collected
+                .sorted()
                 .collect_vec()
         });
 
